@@ -688,6 +688,8 @@ R_<TG_, TA_>::load(ReadStream& stream) noexcept {
 	_core.registry.compoResumable.clear();
 	_apex.deepLoadRequested(_core.registry, stream);
 
+	const CompoForks loadedResumable = _core.registry.compoResumable;
+
 	_core.requests.clear();
 	// TODO: load(stream, _core.requests);
 
@@ -713,6 +715,9 @@ R_<TG_, TA_>::load(ReadStream& stream) noexcept {
 	PlanControl control{_core, emptyTransitions};
 
 	_apex.deepChangeToRequested(control);
+
+	// exits and entries above rewrite the resumable prongs: reinstate the loaded ones
+	_core.registry.compoResumable = loadedResumable;
 
 	HFSM2_IF_STRUCTURE_REPORT(udpateActivity());
 }
